@@ -45,14 +45,16 @@ type denum struct {
 	inSwitch    int
 	decls       map[types.Object]*ast.FuncDecl // package-local functions that may be inlined when they are used as conditions
 	inlineDepth int
-	loopsOnce   bool                             // loops that are not unrolled are entered zero times or once (their body's branches become path conditions)
-	iterExit    *[]dstate                        // while the body of such a loop is run: where continue / break go
-	tsClause    map[ast.Expr]*ast.CaseClause     // synthetic type atoms → the clause taken (nil: default / no clause)
-	tsSwitch    map[ast.Expr]*ast.TypeSwitchStmt // … → their type switch
-	inlineVals  bool                             // value-returning package-local helpers called in simple statements are inlined: the caller's path forks per path of the helper, its results bound to what that path returns
-	callVars    map[*ast.CallExpr]types.Object   // the synthetic variable holding the result of an inlined call that is not assigned to a variable
-	inlStack    []*ast.BlockStmt                 // the bodies being enumerated in place (a recursive call stays a call)
-	substCalls  bool                             // (expand) bindings to calls are substituted too
+	loopsOnce   bool                                                        // loops that are not unrolled are entered zero times or once (their body's branches become path conditions)
+	iterExit    *[]dstate                                                   // while the body of such a loop is run: where continue / break go
+	tsClause    map[ast.Expr]*ast.CaseClause                                // synthetic type atoms → the clause taken (nil: default / no clause)
+	tsSwitch    map[ast.Expr]*ast.TypeSwitchStmt                            // … → their type switch
+	inlineVals  bool                                                        // value-returning package-local helpers called in simple statements are inlined: the caller's path forks per path of the helper, its results bound to what that path returns
+	callVars    map[*ast.CallExpr]types.Object                              // the synthetic variable holding the result of an inlined call that is not assigned to a variable
+	inlStack    []*ast.BlockStmt                                            // the bodies being enumerated in place (a recursive call stays a call)
+	noInline    map[types.Object]bool                                       // functions that are never followed into (the calls a rule looks for)
+	substCalls  bool                                                        // (expand) bindings to calls are substituted too
+	loopHook    func(d *denum, loop ast.Stmt, in []dstate) ([]dstate, bool) // a rule's own summary of a loop it understands (states after the loop; paths that return inside are added by the hook)
 }
 
 // expand replaces locals by what they are bound to on the path, bindings to calls included: the expression in terms
@@ -117,7 +119,7 @@ func (d *denum) resolveCall(call *ast.CallExpr, env map[types.Object]ast.Expr) *
 		return nil
 	}
 	fd := d.decls[fn]
-	if fd == nil || fd.Body == nil {
+	if fd == nil || fd.Body == nil || d.noInline[fn] {
 		return nil
 	}
 	t := &inlTarget{ftype: fd.Type, body: fd.Body, args: call.Args}
@@ -167,7 +169,7 @@ type inlResult struct {
 // runInlined enumerates the callee's paths from state s with the receiver and parameters bound to the arguments.
 func (d *denum) runInlined(t *inlTarget, s dstate, nres int, named []*ast.Ident) ([]inlResult, bool) {
 	sub := &denum{info: d.info, pkg: d.pkg, inits: d.inits, decls: d.decls, limit: d.limit, inlineDepth: d.inlineDepth + 1, opaqueLoops: true, loopsOnce: d.loopsOnce,
-		inlineVals: true, callVars: d.callVars, tsClause: d.tsClause, tsSwitch: d.tsSwitch, inlStack: append(append([]*ast.BlockStmt{}, d.inlStack...), t.body)}
+		inlineVals: true, callVars: d.callVars, tsClause: d.tsClause, tsSwitch: d.tsSwitch, inlStack: append(append([]*ast.BlockStmt{}, d.inlStack...), t.body), noInline: d.noInline}
 	argOf := func(arg ast.Expr) ast.Expr {
 		if inner, isCall := ast.Unparen(arg).(*ast.CallExpr); isCall {
 			if ob := d.callVars[inner]; ob != nil {
@@ -618,6 +620,35 @@ func (d *denum) split(cond ast.Expr, in []dstate) (t, f []dstate) {
 			return xf, xt
 		}
 	}
+	// two constants compared (a kind selected by one phase and tested by the next: kind == editInsert)
+	if be, ok := cond.(*ast.BinaryExpr); ok && (be.Op == token.EQL || be.Op == token.NEQ) && d.inlineVals && d.info != nil && len(in) > 0 {
+		var folded, others []dstate
+		var foldedVal []bool
+		for _, s := range in {
+			x, y := ast.Unparen(d.subst(be.X, s.env, 0)), ast.Unparen(d.subst(be.Y, s.env, 0))
+			tx, okx := d.info.Types[x]
+			ty, oky := d.info.Types[y]
+			if okx && oky && tx.Value != nil && ty.Value != nil {
+				folded = append(folded, s)
+				foldedVal = append(foldedVal, constant.Compare(tx.Value, token.EQL, ty.Value) == (be.Op == token.EQL))
+			} else {
+				others = append(others, s)
+			}
+		}
+		if len(folded) > 0 {
+			if len(others) > 0 {
+				t, f = d.split(cond, others)
+			}
+			for i, s := range folded {
+				if foldedVal[i] {
+					t = append(t, s)
+				} else {
+					f = append(f, s)
+				}
+			}
+			return t, f
+		}
+	}
 	// nil compared with nil (a field that a struct literal leaves out)
 	if be, ok := cond.(*ast.BinaryExpr); ok && (be.Op == token.EQL || be.Op == token.NEQ) && len(in) > 0 {
 		if y, ok := ast.Unparen(be.Y).(*ast.Ident); ok && y.Name == "nil" {
@@ -1056,6 +1087,12 @@ func (d *denum) run(stmts []ast.Stmt, in []dstate) []dstate {
 			d.undecided = "a statement the path enumerator does not interpret (" + nodeKind(st) + ")"
 			return nil
 		case *ast.RangeStmt:
+			if d.loopHook != nil {
+				if out, ok := d.loopHook(d, s, cur); ok {
+					cur = out
+					continue
+				}
+			}
 			elems := d.constElems(s.X, cur)
 			if elems == nil && d.loopsOnce {
 				cur = d.once(s, s.Body, cur)
@@ -1102,6 +1139,12 @@ func (d *denum) run(stmts []ast.Stmt, in []dstate) []dstate {
 				cur = d.run(s.Body.List, states)
 			}
 		case *ast.ForStmt:
+			if d.loopHook != nil {
+				if out, ok := d.loopHook(d, s, cur); ok {
+					cur = out
+					continue
+				}
+			}
 			if d.loopsOnce {
 				if s.Init != nil {
 					cur = d.run([]ast.Stmt{s.Init}, cur)
